@@ -1,5 +1,6 @@
 import NdnGen.C06
 import NdnProofs.Lemmas.Framing
+import NdnProofs.Lemmas.StreamReader
 import NdnProofs.Lemmas.Receive
 import NdnProofs.Lemmas.ReceiveBytes
 /-!
@@ -70,9 +71,9 @@ private theorem stream_length (ps : List (Nat × Bytes)) : 2 * ps.length ≤ (st
 /-- **frames_concat.** Whatever packets the peer wrote (any number, any types and lengths below 2^64),
     followed by any proper prefix of one more packet (possibly empty, possibly cut inside a type or
     length number) before the stream ended: the face hands over exactly those packets, each once, in
-    order, with the right type, and nothing of the partial packet.  The cut of the stream into reads
-    does not occur in the statement: `readexactly` abstracts it (hypothesis H; checked by the harness
-    with a real StreamReader and every cut position). -/
+    order, with the right type, and nothing of the partial packet.  This is the framing of the
+    CONCATENATED stream; that every cut of the stream into reads gives the same hand-over is
+    `chunks_irrelevant` / `chunked_concat` below (chunked machine of NdnModel/StreamReader.lean). -/
 theorem frames_concat (ps : List (Nat × Bytes)) (h : ∀ p ∈ ps, ValidPkt p)
     (q : Nat × Bytes) (hq : ValidPkt q) (part ext : Bytes) (hp : part ++ ext = wire q) (hne : ext ≠ []) :
     frames (stream ps ++ part) = (delivered ps, part) := by
@@ -124,6 +125,175 @@ theorem frames_never_partial (s : Bytes) :
 
 example : (frames [5, 1, 7, 253, 0]).1 = [(5, [5, 1, 7])] ∧ (frames [5, 1, 7, 253, 0]).2 = [253, 0] := by
   decide
+
+/-! ## (a') the cut of the stream into reads
+
+  `Ndn.StreamReader` models asyncio's StreamReader (buffer, eof flag, exception set by the transport)
+  and `StreamFace.run` as a resumable machine over the transport's events `feed chunk`, `feedEof`,
+  `setException e`.  The theorems below quantify over EVERY list of chunks (any number, any sizes,
+  empty chunks, one byte at a time, cuts inside Type / Length numbers) and relate the machine to `frames`
+  of the concatenation; the `except` tuple of `StreamFace.run` is the generated `Gen.C06.streamCaught`. -/
+
+open Ndn.StreamReader in
+/-- the transport's calls for a given cut of the stream: one `feed_data` per chunk -/
+def feeds (cs : List Bytes) : List Event := cs.map .feed
+
+/-- specification of the per-chunk hand-over trace: after each chunk, exactly the complete packets
+    among the bytes received so far -/
+def handedAfter (pre : Bytes) : List Bytes → List (List (Nat × Bytes))
+  | [] => []
+  | c :: cs => (frames (pre ++ c)).1 :: handedAfter (pre ++ c) cs
+
+/-- the two orderly ways a stream ends for `StreamFace`: EOF, or the transport reports a connection reset -/
+def IsEnd (ev : StreamReader.Event) : Prop := ev = .feedEof ∨ ev = .setException .connectionReset
+
+/-- the source's `except (...)` tuple around the framing reads names both IncompleteReadError and
+    ConnectionResetError (closed by evaluation of the generated table: a source edit that drops one
+    makes this fail). -/
+theorem stream_caught_sufficient :
+    StreamReader.handled Gen.C06.streamCaught .incompleteRead = .shutdown ∧
+    StreamReader.handled Gen.C06.streamCaught .connectionReset = .shutdown := by decide
+
+private theorem sim_run (caught : List StreamReader.RdErr) (cs : List Bytes) :
+    StreamReader.Sim (StreamReader.run caught (feeds cs)) cs.flatten := by
+  have := StreamReader.sim_feeds (caught := caught) cs (StreamReader.sim_start caught)
+  simpa [StreamReader.run, feeds] using this
+
+private theorem run_end (caught : List StreamReader.RdErr) (cs : List Bytes) (ev : StreamReader.Event) :
+    StreamReader.run caught (feeds cs ++ [ev]) =
+      StreamReader.stepAcc caught (StreamReader.run caught (feeds cs)) ev := by
+  simp only [StreamReader.run, StreamReader.runFrom_append, StreamReader.runFrom]
+
+/-- **chunks_irrelevant.** For EVERY cut of the byte stream into chunks (any list of chunks, including
+    empty chunks and one byte at a time) followed by EOF or a connection reset: the chunked machine
+    hands over exactly `frames` of the concatenation - the same packets in the same order as the
+    abstract model, whatever the cut - and the face shuts down. -/
+theorem chunks_irrelevant (cs : List Bytes) (fin : StreamReader.Event) (hf : IsEnd fin) :
+    (StreamReader.run Gen.C06.streamCaught (feeds cs ++ [fin])).2 = (frames cs.flatten).1 ∧
+    (StreamReader.run Gen.C06.streamCaught (feeds cs ++ [fin])).1.status = .shutdown := by
+  rw [run_end]
+  have hs := sim_run Gen.C06.streamCaught cs
+  rcases hf with rfl | rfl
+  · obtain ⟨h1, h2⟩ := StreamReader.sim_eof (caught := Gen.C06.streamCaught) hs
+    exact ⟨h1, by rw [h2]; exact stream_caught_sufficient.1⟩
+  · obtain ⟨h1, h2⟩ := StreamReader.sim_exc (caught := Gen.C06.streamCaught) hs .connectionReset
+    exact ⟨h1, by rw [h2]; exact stream_caught_sufficient.2⟩
+
+example : (StreamReader.run Gen.C06.streamCaught (feeds [[5], [], [1, 7, 253], [0]] ++ [.feedEof])).2
+    = [(5, [5, 1, 7])] :=
+  (chunks_irrelevant [[5], [], [1, 7, 253], [0]] .feedEof (.inl rfl)).1.trans (by decide)
+
+/-- **chunked_concat.** The statement of the property, end to end: whatever packets the peer wrote
+    (any number, types and lengths below 2^64) followed by any proper prefix of one more, cut into
+    reads in ANY way, then EOF or a reset: exactly those packets are handed over, each once, in order,
+    with the right type; nothing of the partial packet; the face shuts down. -/
+theorem chunked_concat (ps : List (Nat × Bytes)) (h : ∀ p ∈ ps, ValidPkt p)
+    (q : Nat × Bytes) (hq : ValidPkt q) (part ext : Bytes) (hp : part ++ ext = wire q) (hne : ext ≠ [])
+    (cs : List Bytes) (hcut : cs.flatten = stream ps ++ part) (fin : StreamReader.Event) (hf : IsEnd fin) :
+    (StreamReader.run Gen.C06.streamCaught (feeds cs ++ [fin])).2 = delivered ps ∧
+    (StreamReader.run Gen.C06.streamCaught (feeds cs ++ [fin])).1.status = .shutdown := by
+  obtain ⟨h1, h2⟩ := chunks_irrelevant cs fin hf
+  rw [hcut, frames_concat ps h q hq part ext hp hne] at h1
+  exact ⟨h1, h2⟩
+
+/-- **never_partial_chunked.** At EVERY intermediate point (after any list of chunks, no end yet): what
+    has been handed over is `frames` of the bytes received so far, i.e. (with `frames_never_partial`)
+    every element whose last byte has arrived and nothing else: each handed-over item is exactly one
+    complete element (reading it alone returns it with nothing left), the handed-over items followed by
+    the bytes the face still holds (`bio` of the packet in progress ++ the reader's buffer) are the bytes
+    received, and the held bytes do not contain a complete element.  The face is still running. -/
+theorem never_partial_chunked (cs : List Bytes) :
+    let acc := StreamReader.run Gen.C06.streamCaught (feeds cs)
+    acc.2 = (frames cs.flatten).1 ∧ acc.1.status = .running ∧
+    acc.1.phase.bio ++ acc.1.reader.buf = (frames cs.flatten).2 ∧
+    (∀ p ∈ acc.2, readPacket p.2 = some (p, [])) ∧
+    (acc.2.map (·.2)).flatten ++ (acc.1.phase.bio ++ acc.1.reader.buf) = cs.flatten ∧
+    readPacket (acc.1.phase.bio ++ acc.1.reader.buf) = none := by
+  intro acc
+  have hs := sim_run Gen.C06.streamCaught cs
+  refine ⟨hs.out, hs.running, hs.rem, ?_, ?_, ?_⟩
+  · rw [hs.out]; exact frames_complete _
+  · rw [hs.out, hs.rem]; exact frames_partition _
+  · rw [hs.rem]; exact readPacket_frames_rem _
+
+example : (StreamReader.run Gen.C06.streamCaught (feeds [[5, 1], [7, 253, 0]])).2 = [(5, [5, 1, 7])] :=
+  (never_partial_chunked [[5, 1], [7, 253, 0]]).1.trans (by decide)
+
+/-- **handed_over_prefix.** What has been handed over after some chunks is a prefix of what has been
+    handed over after any continuation (more chunks, the end of the stream, anything): a delivered
+    packet is never withdrawn, reordered or delivered again. -/
+theorem handed_over_prefix (caught : List StreamReader.RdErr) (evs more : List StreamReader.Event) :
+    (StreamReader.run caught evs).2 <+: (StreamReader.run caught (evs ++ more)).2 := by
+  simp only [StreamReader.run, StreamReader.runFrom_append]
+  exact StreamReader.runFrom_grows caught more _
+
+example : (StreamReader.run Gen.C06.streamCaught (feeds [[5, 1]])).2 <+:
+    (StreamReader.run Gen.C06.streamCaught (feeds [[5, 1]] ++ feeds [[7]])).2 := handed_over_prefix _ _ _
+
+private theorem trace_feeds (caught : List StreamReader.RdErr) (cs : List Bytes) :
+    ∀ (acc : StreamReader.Face × List (Nat × Bytes)) (s : Bytes), StreamReader.Sim acc s →
+    (StreamReader.traceFrom caught acc (feeds cs)).map (·.2) = handedAfter s cs := by
+  induction cs with
+  | nil => intro acc s _; rfl
+  | cons c r ih =>
+    intro acc s h
+    have h' := StreamReader.sim_feed (caught := caught) h c
+    simp only [feeds, List.map_cons, StreamReader.traceFrom, handedAfter, List.cons.injEq]
+    exact ⟨h'.out, ih _ _ h'⟩
+
+/-- **trace_chunked.** The per-chunk trace the harness compares with the real face: after the i-th
+    chunk the machine has handed over exactly the complete packets among the first i chunks' bytes
+    (`handedAfter`), and the end of the stream (EOF / reset) adds nothing. -/
+theorem trace_chunked (cs : List Bytes) (fin : StreamReader.Event) (hf : IsEnd fin) :
+    (StreamReader.trace Gen.C06.streamCaught (feeds cs ++ [fin])).map (·.2) =
+      handedAfter [] cs ++ [(frames cs.flatten).1] := by
+  have hs := sim_run Gen.C06.streamCaught cs
+  simp only [StreamReader.trace, StreamReader.traceFrom_append, List.map_append]
+  rw [trace_feeds _ cs _ [] (StreamReader.sim_start _)]
+  have := (chunks_irrelevant cs fin hf).1
+  rw [run_end] at this
+  simp only [StreamReader.traceFrom, List.map_cons, List.map_nil]
+  exact congrArg _ (congrArg (· :: []) this)
+
+example : (StreamReader.trace Gen.C06.streamCaught (feeds [[5], [0, 6], [1, 9, 7]] ++ [.feedEof])).map (·.2.length)
+    = [0, 1, 2, 2] := by
+  have := congrArg (List.map List.length) (trace_chunked [[5], [0, 6], [1, 9, 7]] .feedEof (.inl rfl))
+  simp only [List.map_map] at this
+  exact this.trans (by decide)
+
+/-- **reset_mid_packet.** The stream ends - EOF, or ANY exception class set by the transport - at any
+    point (in particular in the middle of a packet, inside a Type or Length number, after any cut):
+    nothing is handed over at that moment (the hand-over list is the one from before the end), every
+    handed-over item is one complete element, and the undelivered remainder - the partial packet - is
+    not among them.  The task ends through the `except` clause (`shutdown`) when the class is named by
+    it and with that exception otherwise (`handled`); for EOF and a connection reset that is `shutdown`
+    by `stream_caught_sufficient`. -/
+theorem reset_mid_packet (caught : List StreamReader.RdErr) (cs : List Bytes) (fin : StreamReader.Event)
+    (cls : StreamReader.RdErr)
+    (hf : (fin = .feedEof ∧ cls = .incompleteRead) ∨ fin = .setException cls) :
+    let before := StreamReader.run caught (feeds cs)
+    let after := StreamReader.run caught (feeds cs ++ [fin])
+    after.2 = before.2 ∧ after.2 = (frames cs.flatten).1 ∧
+    (∀ p ∈ after.2, readPacket p.2 = some (p, [])) ∧
+    (after.2.map (·.2)).flatten ++ (frames cs.flatten).2 = cs.flatten ∧
+    after.1.status = StreamReader.handled caught cls := by
+  have hs := sim_run caught cs
+  have key : (StreamReader.run caught (feeds cs ++ [fin])).2 = (frames cs.flatten).1 ∧
+      (StreamReader.run caught (feeds cs ++ [fin])).1.status = StreamReader.handled caught cls := by
+    rw [run_end]
+    rcases hf with ⟨rfl, rfl⟩ | rfl
+    · exact StreamReader.sim_eof hs
+    · exact StreamReader.sim_exc hs cls
+  intro before after
+  have hb : before.2 = (frames cs.flatten).1 := hs.out
+  refine ⟨by rw [key.1, hb], key.1, ?_, ?_, key.2⟩
+  · rw [key.1]; exact frames_complete _
+  · rw [key.1]; exact frames_partition _
+
+example : (StreamReader.run Gen.C06.streamCaught (feeds [[5, 1, 7, 6], [3, 1]] ++ [.setException .connectionReset])).2
+    = [(5, [5, 1, 7])] :=
+  (reset_mid_packet _ [[5, 1, 7, 6], [3, 1]] (.setException .connectionReset) .connectionReset (.inr rfl)).2.1.trans
+    (by decide)
 
 /-! ## (b) no failure on any delivered bytes -/
 
